@@ -39,6 +39,14 @@ class Partial:
         k.update(kw)
         return self.func(*(self.args + tuple(args)), **k)
 
+class FuncRef:
+    """A module-level function of the repository held as a value."""
+    _sa_fold_ok = True
+    def __init__(self, folder, modname, name):
+        self.folder, self.modname, self.name = folder, modname, name
+    def __call__(self, *args, **kw):
+        return self.folder.call_func(self.modname, self.name, list(args), kw)
+
 class FakeFile:
     _sa_fold_ok = True
     def __init__(self, name, mode, sink):
@@ -81,6 +89,21 @@ class ClassFolder:
         self.files = None        # name -> bytearray written through open(name, 'wb') when set to a dict
         self.modglobals = {}     # module -> {name: value} for names a folded function declared `global` and assigned
         self.override_names = set(getattr(extra_hook, 'override_names', ()))
+        self.lazy_singletons = set()
+        self._singletons()
+
+    def _singletons(self):
+        """Module-level mutable containers (`_cache = {}`) are one object per fold session, not a fresh literal at every use."""
+        for name, nodes in self.mod.assigns.items():
+            node = nodes[-1]
+            mutable = isinstance(node, (ast.Dict, ast.List, ast.Set)) and not (getattr(node, 'keys', None) or getattr(node, 'elts', None))
+            if isinstance(node, ast.Call) and isinstance(node.func, ast.Name) and node.func.id in ('dict', 'list', 'set', 'defaultdict') and not node.args:
+                mutable = True
+            if mutable:
+                self.lazy_singletons.add(name)
+                self.override_names.add(name)
+
+    lazy_singletons = None
 
     def sibling(self, modname):
         """Folder for another module sharing this one's hook, model files and module globals."""
@@ -123,6 +146,10 @@ class ClassFolder:
                 if n.id in self.modglobals.get(self.modname, {}):
                     v = self.modglobals[self.modname][n.id]
                     return FOLDED_NONE if v is None else v
+                if n.id in self.lazy_singletons and n.id in self.mod.assigns:
+                    v = Lit(self.repo, self.modname).ev(self.mod.assigns[n.id][-1])
+                    self.modglobals.setdefault(self.modname, {})[n.id] = v
+                    return v
                 if n.id in self.mod.classes:
                     return ('cls', n.id)
                 if n.id in self.mod.funcs:
@@ -165,8 +192,10 @@ class ClassFolder:
                     return hasattr(obj, name)
                 if isinstance(fn, ast.Name) and fn.id == 'partial' and fn.id not in lit.env and n.args:
                     a = lit._seq(n.args)
-                    if isinstance(a[0], (BoundMethod, Closure, Partial)):
-                        return Partial(a[0], a[1:], {k.arg: lit.ev(k.value) for k in n.keywords if k.arg})
+                    if isinstance(a[0], tuple) and a[0] and a[0][0] in ('f', 'fx'):
+                        a[0] = FuncRef(self, self.modname if a[0][0] == 'f' else a[0][1], a[0][-1])
+                    if isinstance(a[0], (BoundMethod, Closure, Partial, FuncRef)):
+                        return Partial(a[0], a[1:], lit._kw(n.keywords))
                 if isinstance(fn, ast.Name) and fn.id == 'open' and fn.id not in lit.env and self.files is not None:
                     args = lit._seq(n.args)
                     return FakeFile(args[0], args[1] if len(args) > 1 else 'r', self.files)
@@ -188,7 +217,7 @@ class ClassFolder:
                     c, m = self.find_method(cur_self._cls, fn.attr, after=cur_cls)
                     if m is None:
                         return FOLDED_NONE      # object.__init__
-                    r = self.call_method(cur_self, c, m, lit._seq(n.args), {k.arg: lit.ev(k.value) for k in n.keywords if k.arg})
+                    r = self.call_method(cur_self, c, m, lit._seq(n.args), lit._kw(n.keywords))
                     return FOLDED_NONE if r is None else r
                 target = None
                 if isinstance(fn, ast.Name):
@@ -196,23 +225,23 @@ class ClassFolder:
                         target = lit.ev(fn)
                     except NotLiteral:
                         target = None
-                    if isinstance(target, (Closure, BoundMethod, Partial)):
-                        r = target(*lit._seq(n.args), **{k.arg: lit.ev(k.value) for k in n.keywords if k.arg})
+                    if isinstance(target, (Closure, BoundMethod, Partial, FuncRef)):
+                        r = target(*lit._seq(n.args), **lit._kw(n.keywords))
                         return FOLDED_NONE if r is None else r
                     if isinstance(target, tuple) and target and target[0] == 'cls':
                         inst = Inst(self.modname, target[1], self)
                         c, m = self.find_method(target[1], '__init__')
                         if m is not None:
-                            self.call_method(inst, c, m, lit._seq(n.args), {k.arg: lit.ev(k.value) for k in n.keywords if k.arg})
+                            self.call_method(inst, c, m, lit._seq(n.args), lit._kw(n.keywords))
                         return inst
                     if isinstance(target, tuple) and target and target[0] == 'clsx':
                         other = self.sibling(target[1])
-                        return other.new(target[2], *lit._seq(n.args), **{k.arg: lit.ev(k.value) for k in n.keywords if k.arg})
+                        return other.new(target[2], *lit._seq(n.args), **lit._kw(n.keywords))
                     if isinstance(target, tuple) and target and target[0] == 'f':
-                        r = self.call_func(self.modname, target[1], lit._seq(n.args), {k.arg: lit.ev(k.value) for k in n.keywords if k.arg})
+                        r = self.call_func(self.modname, target[1], lit._seq(n.args), lit._kw(n.keywords))
                         return FOLDED_NONE if r is None else r
                     if isinstance(target, tuple) and target and target[0] == 'fx':
-                        r = self.sibling(target[1]).call_func(target[1], target[2], lit._seq(n.args), {k.arg: lit.ev(k.value) for k in n.keywords if k.arg})
+                        r = self.sibling(target[1]).call_func(target[1], target[2], lit._seq(n.args), lit._kw(n.keywords))
                         return FOLDED_NONE if r is None else r
                 if isinstance(fn, ast.Attribute):
                     try:
@@ -223,7 +252,7 @@ class ClassFolder:
                         folder = self.sibling(obj._mod)
                         c, m = folder.find_method(obj._cls, fn.attr)
                         if m is not None:
-                            r = folder.call_method(obj, c, m, lit._seq(n.args), {k.arg: lit.ev(k.value) for k in n.keywords if k.arg})
+                            r = folder.call_method(obj, c, m, lit._seq(n.args), lit._kw(n.keywords))
                             return FOLDED_NONE if r is None else r
                     if isinstance(obj, (BoundMethod, Closure)):
                         pass
@@ -240,8 +269,8 @@ class ClassFolder:
                     target = lit.ev(fn)
                 except NotLiteral:
                     target = None
-                if isinstance(target, (BoundMethod, Closure, Partial)):
-                    r = target(*lit._seq(n.args), **{k.arg: lit.ev(k.value) for k in n.keywords if k.arg})
+                if isinstance(target, (BoundMethod, Closure, Partial, FuncRef)):
+                    r = target(*lit._seq(n.args), **lit._kw(n.keywords))
                     return FOLDED_NONE if r is None else r
             return None
         f.wants_lit = True
@@ -257,7 +286,12 @@ class ClassFolder:
             env = dict(zip(params, args))
             if fn.args.vararg is not None:
                 env[fn.args.vararg.arg] = tuple(args[len(params):])
-            env.update(kw)
+            known = set(params) | {a.arg for a in fn.args.kwonlyargs}
+            if fn.args.kwarg is not None:
+                env[fn.args.kwarg.arg] = {k: v for k, v in kw.items() if k not in known}
+                env.update({k: v for k, v in kw.items() if k in known})
+            else:
+                env.update(kw)
             defaults = fn.args.defaults
             for p, d in zip(params[len(params) - len(defaults):], defaults):
                 if p not in env:
